@@ -6,6 +6,7 @@ From Coq Require Import String.
 From Coq Require Import ZArith List Bool.
 Import ListNotations.
 Require Import WnV.Base.Sx WnV.Model.Spec WnV.Proofs.SpecProofs WnV.Proofs.SpecCor.
+Require Import WnV.Proofs.GlobClass.
 Local Open Scope Z_scope.
 
 (* (1) the matcher on the documented forms *)
@@ -91,3 +92,83 @@ Example C08_nonvacuous :
   /\ wordnet_lexicons lexs (Some (str_of_string "zz")) None = None.
 Proof. vm_compute. repeat split; reflexivity. Qed.
 Print Assumptions C08_nonvacuous.
+
+(* ---- character classes of SQLite GLOB (the model follows sqlite3 patternCompare; validated against SQLite on 1.26 million pattern/string pairs incl. an exhaustive sweep, see DESIGN.md E.2): a class of plain characters matches exactly its members, ^ inverts, a-b is a range, an unterminated class matches nothing; patterns without [ behave as the star/question-mark fragment the other theorems are about *)
+Theorem C08_glob_class_chars :
+  forall (cs p : list Z) (c : Z) (s : list Z),
+         cs <> [] ->
+         zmem c_rbr cs = false ->
+         zmem c_dash cs = false ->
+         zmem c_caret cs = false ->
+         glob ([c_lbr] ++ cs ++ [93] ++ p) (c :: s) = zmem c cs && glob p s.
+Proof. exact (@glob_class_chars). Qed.
+Print Assumptions C08_glob_class_chars.
+
+Theorem C08_glob_class_chars_inverted :
+  forall (cs p : list Z) (c : Z) (s : list Z),
+         cs <> [] ->
+         zmem c_rbr cs = false ->
+         zmem c_dash cs = false ->
+         zmem c_caret cs = false ->
+         glob ([c_lbr; c_caret] ++ cs ++ [93] ++ p) (c :: s) = negb (zmem c cs) && glob p s.
+Proof. exact (@glob_class_chars_inverted). Qed.
+Print Assumptions C08_glob_class_chars_inverted.
+
+Theorem C08_glob_class_empty_string :
+  forall q : list Z, glob ([c_lbr] ++ q) [] = false.
+Proof. exact (@glob_class_empty_string). Qed.
+Print Assumptions C08_glob_class_empty_string.
+
+Theorem C08_glob_class_range_gen :
+  forall a b c : Z,
+         a <> 93 ->
+         a <> 45 ->
+         a <> 94 ->
+         b <> 93 ->
+         b <> 45 ->
+         b <> 94 -> 0 < a -> glob [91; a; 45; b; 93] [c] = (c =? a) || (a <=? c) && (c <=? b).
+Proof. exact (@glob_class_range_gen). Qed.
+Print Assumptions C08_glob_class_range_gen.
+
+Theorem C08_glob_class_range :
+  forall a b c : Z,
+         a <> 93 ->
+         a <> 45 ->
+         a <> 94 ->
+         b <> 93 ->
+         b <> 45 ->
+         b <> 94 -> 0 < a -> a <= b -> glob [91; a; 45; b; 93] [c] = (a <=? c) && (c <=? b).
+Proof. exact (@glob_class_range). Qed.
+Print Assumptions C08_glob_class_range.
+
+Theorem C08_glob_class_unterminated :
+  forall p s : str, zmem 93 p = false -> glob (c_lbr :: p) s = false.
+Proof. exact (@glob_class_unterminated). Qed.
+Print Assumptions C08_glob_class_unterminated.
+
+Theorem C08_glob_simple_agree :
+  forall p s : str, zmem c_lbr p = false -> glob p s = glob_simple p s.
+Proof. exact (@glob_simple_agree). Qed.
+Print Assumptions C08_glob_simple_agree.
+
+Theorem C08_glob_class_specifier_example :
+  glob [97; 98; 91; 99; 100; 93; 58; 42] [97; 98; 99; 58; 49] = true /\
+         glob [97; 98; 91; 99; 100; 93; 58; 42] [97; 98; 100; 58; 49; 46; 48] = true /\
+         glob [97; 98; 91; 99; 100; 93; 58; 42] [97; 98; 58; 49] = false /\
+         glob [97; 98; 91; 99; 100; 93; 58; 42] [97; 98; 101; 58; 49] = false.
+Proof. exact (@glob_class_specifier_example). Qed.
+Print Assumptions C08_glob_class_specifier_example.
+
+Theorem C08_G1_empty_body_counterexample :
+  glob ([c_lbr] ++ [] ++ [93] ++ [97; 93]) [93] = true /\
+         zmem 93 [] && glob [97; 93] [] = false /\
+         glob ([c_lbr; c_caret] ++ [] ++ [93] ++ [97; 93]) [98] = true /\
+         negb (zmem 98 []) && glob [97; 93] [] = false.
+Proof. exact (@G1_empty_body_counterexample). Qed.
+Print Assumptions C08_G1_empty_body_counterexample.
+
+Theorem C08_G2_counterexample :
+  glob [91; 99; 45; 97; 93] [99] = true /\ (99 <=? 99) && (99 <=? 97) = false.
+Proof. exact (@G2_counterexample). Qed.
+Print Assumptions C08_G2_counterexample.
+
